@@ -522,6 +522,25 @@ type smtPrinter struct {
 	defined  map[int]bool // term id -> has a define-fun named t<id>
 	declared map[string]bool
 	out      *strings.Builder
+	// undo log for push/pop levels
+	logIDs   []int
+	logNames []string
+	marks    [][2]int
+}
+
+func (p *smtPrinter) pushLevel() { p.marks = append(p.marks, [2]int{len(p.logIDs), len(p.logNames)}) }
+
+func (p *smtPrinter) popLevel() {
+	m := p.marks[len(p.marks)-1]
+	p.marks = p.marks[:len(p.marks)-1]
+	for _, id := range p.logIDs[m[0]:] {
+		delete(p.defined, id)
+	}
+	for _, n := range p.logNames[m[1]:] {
+		delete(p.declared, n)
+	}
+	p.logIDs = p.logIDs[:m[0]]
+	p.logNames = p.logNames[:m[1]]
 }
 
 func newPrinter() *smtPrinter {
@@ -537,6 +556,7 @@ func (p *smtPrinter) ref(t *Term) string {
 	case OpVar:
 		if !p.declared[t.Name] {
 			p.declared[t.Name] = true
+			p.logNames = append(p.logNames, t.Name)
 			fmt.Fprintf(p.out, "(declare-const %s %s)\n", t.Name, sortOf(t.W))
 		}
 		return t.Name
@@ -560,6 +580,7 @@ func (p *smtPrinter) ref(t *Term) string {
 		body = "(" + opNames[t.Op] + " " + strings.Join(args, " ") + ")"
 	}
 	p.defined[t.id] = true
+	p.logIDs = append(p.logIDs, t.id)
 	fmt.Fprintf(p.out, "(define-fun t%d () %s %s)\n", t.id, sortOf(t.W), body)
 	return fmt.Sprintf("t%d", t.id)
 }
